@@ -19,7 +19,7 @@ MOD = "bbverif.checks.c02"
 META = ["plain", "target", "target_opts", "type", "target_type_opts", "device", "blank_lines"]
 STMTS = ["noargs1", "noargs2_sq", "noargs2_rb", "noargs2_bare", "pos_num", "pos_mixed", "kw_num", "kw_list", "kw_mixed",
          "pos_kw", "measure", "measure_kw", "var_int_mode", "var_float_arg", "var_expr", "var_str_bool", "array_arg",
-         "array_idx", "loop_list", "loop_range", "trailing_comma", "expr_mode", "complex_arg", "empty_args"]
+         "array_idx", "loop_list", "loop_repeat", "loop_range", "trailing_comma", "expr_mode", "complex_arg", "empty_args"]
 
 
 class Env:
@@ -105,6 +105,11 @@ def stmt_lines(kind, env):
     if kind == "loop_list":
         i = env.name("i")
         return ["for int %s in [%s, %s]" % (i, m(), m()), "    Vac | %s" % i, "    Dgate(%s) | %s" % (lv.float(), i)]
+    if kind == "loop_repeat":
+        # the same value written several times (doc/syntax.rst: for int i in [0, 2, 1, 0, 2, 1])
+        i = env.name("i")
+        a, b = m(), m()
+        return ["for int %s in [%s, %s, %s, %s]" % (i, a, b, a, b), "    Rgate(%s) | %s" % (lv.float(), i)]
     if kind == "loop_range":
         i = env.name("i")
         return ["for int %s in 2:5" % i, "    Rgate(%s*%s) | 7" % (i, lv.float())]
